@@ -700,7 +700,10 @@ def read_generated(code, invoke_name, kerns, proxies):
             continue
         mh = RE_HX.match(up)
         if mh:
-            if dostack:
+            # Redundant computation applied to an already coloured loop makes PSyclone insert the new exchanges
+            # inside the loop over colours, before the loop over cells of one colour: executed once per colour.
+            # Repeating an exchange between colours is value-preserving (NOTES.md): modelled as before the loop.
+            if dostack and not (len(dostack) == 1 and dostack[0][0][0] == "colours" and not dostack[0][1]):
                 raise OutOfSubset("halo exchange inside a loop")
             f, i = fld(mh.group(1), mh.group(2))
             d = parse_depth(mh.group(4))
